@@ -99,6 +99,7 @@ func (p *ProjectRunner) Run() error {
 		p.logger.Open(p.project.LogLocation, p.project.LoggerConfig)
 		defer p.logger.Close()
 	}
+	verifYield("run.prepare", "")
 	p.prepareEnvCmds()
 	//zerolog.SetGlobalLevel(zerolog.PanicLevel)
 	log.Debug().Msgf("Spinning up %d processes. Order: %q", len(runOrder), nameOrder)
